@@ -27,6 +27,8 @@ func init() {
 			{"C15/key-defaults", "config.Load's defaults carry no value for the user-token keys: a built-in key would pass the length test and be the same on every installation", func(c *Ctx) { keyDefaults(c, "C15/key-defaults", []string{"Security.UserTokenEncryptionKey", "Security.UserTokenSigningKey"}) }},
 			{"C15/http", "TokenInfo: claims written only over err == nil; 405 / 400 / 403 on the refusing branches; nothing derived from the claims on error paths", c15HTTP},
 			{"C15/key-wiring", "main copies the configured user-token keys into the variables the verifier reads", func(c *Ctx) { keyWiring(c, "C15/key-wiring", "UserEncryptionKey", "UserSigningKey") }},
+			{"C15/config-tags", "the configuration fields this property depends on are read from the documented keys: koanf tag = lower-cased field name", func(c *Ctx) { configTags(c, "C15/config-tags", map[string][]string{"Configuration": {"Security"}, "SecurityConfig": {"UserTokenEncryptionKey", "UserTokenSigningKey", "EnableUserToken"}}) }},
+			{"C15/same-user", "the download handler mints the user token for the same user value as the gateway token", func(c *Ctx) { sameUserForTokens(c, "C15/same-user") }},
 		},
 	})
 }
